@@ -145,3 +145,30 @@ Proof.
   - unfold get_root. cbn [get]. rewrite Hf, Ha, Ht. reflexivity.
   - cbn [compile_path]. rewrite Hi, Hf. cbn [compile_path]. discriminate.
 Qed.
+
+(* ---- zero iterations ----
+   A loop over a collection that has no items runs no iteration: its value is
+   defined (false, for every quantifier, as the code has it), so `not (for ..)`
+   and `defined (for ..)` hold.  With [array_len_present]: an array field that
+   the output does not set, or sets to no items, is such a collection. *)
+Lemma loop_over_empty_lemma : forall tbl F qt p sub l,
+  (F p = RObjArr 0 -> eval3 tbl F (QFor qt p sub l) = Some false /\
+                      eval tbl F (QNot (QFor qt p sub l)) = true /\
+                      eval tbl F (QIsDefined (QFor qt p sub l)) = true) /\
+  (F p = RObjMap 0 -> eval3 tbl F (QMapFor qt p [] sub l) = Some false /\
+                      eval tbl F (QNot (QMapFor qt p [] sub l)) = true /\
+                      eval tbl F (QIsDefined (QMapFor qt p [] sub l)) = true).
+Proof.
+  intros tbl F qt p sub l. split; intros H; unfold eval; cbn [eval3]; rewrite H; cbn; repeat split; reflexivity.
+Qed.
+
+Lemma empty_array_loop_generated : forall fs extra m enums n f e tbl qt sub l,
+  find_field n fs = Some f -> fd_ty f = TArr e ->
+  match assoc_n (fd_number f) m with Some (VArr (_ :: _)) => False | _ => True end ->
+  eval3 tbl (lookup (TMsg Proto2 fs extra) (Some (VMsg m)) enums) (QFor qt [SField n] sub l) = Some false.
+Proof.
+  intros fs extra m enums n f e tbl qt sub l Hf Ht Hm.
+  apply (proj1 (loop_over_empty_lemma tbl _ qt [SField n] sub l)).
+  rewrite (array_len_present fs extra m enums n f e Hf Ht).
+  destruct (assoc_n (fd_number f) m) as [[z|b|b|s|mm|[|x r]|mm]|]; try reflexivity. contradiction.
+Qed.
